@@ -438,29 +438,36 @@ def finishRead (first last : Bool) (st : St) (rd : Rd) : Except RErr St :=
     else if !last || e == .ueof then .error .ueof
     else .ok { st with inp := rd.rest, done := true }
 
+/-- the part of a number fn after its read: error switch, short-buffer guard, parse, store -/
+def stepNum (first last : Bool) (fld : NumField) (f : NumFmt) (st : St) (rd : Rd) : Except RErr St :=
+  match finishRead first last st rd with
+  | .error e => .error e
+  | .ok st' =>
+    if fixedWidth f > 0 && rd.buf.length < fixedWidth f then .error .ueof
+    else match parseNum f rd.buf with
+      | none => .error .other
+      | some d => .ok (assign fld d st')
+
+/-- the part of a sized text fn after its read: error switch, decode, store -/
+def stepText (first last : Bool) (fld : TextField) (e : Enc) (st : St) (rd : Rd) : Except RErr St :=
+  match finishRead first last st rd with
+  | .error err => .error err
+  | .ok st' =>
+    match decode e rd.buf with
+    | none => .error .other
+    | some b => .ok (setText fld b st')
+
+/-- the read of a sized text fn: `readSize(int(*size))`; `int(*size)` is negative from 2^63 on
+("invalid negative read size") -/
+def readText (n : Nat) (inp : Bytes) : Rd :=
+  if n ≥ 9223372036854775808 then ⟨[], inp, some .other⟩ else readSize n inp
+
 /-- one fn of `RecordReader.next` for a literal / number / sized text -/
 def stepFlat (first last : Bool) (it : FItem) (st : St) : Except RErr St :=
   match it with
   | .lit d => finishRead first last st (readExact d st.inp)
-  | .num fld f =>
-    let rd := readNumRaw f st.inp
-    match finishRead first last st rd with
-    | .error e => .error e
-    | .ok st' =>
-      if fixedWidth f > 0 && rd.buf.length < fixedWidth f then .error .ueof
-      else match parseNum f rd.buf with
-        | none => .error .other
-        | some d => .ok (assign fld d st')
-  | .text fld e =>
-    let n := st.sz.get fld
-    -- `int(*size)` is negative from 2^63 on: "invalid negative read size"
-    let rd : Rd := if n ≥ 9223372036854775808 then ⟨[], st.inp, some .other⟩ else readSize n st.inp
-    match finishRead first last st rd with
-    | .error e => .error e
-    | .ok st' =>
-      match decode e rd.buf with
-      | none => .error .other
-      | some b => .ok (setText fld b st')
+  | .num fld f => stepNum first last fld f st (readNumRaw f st.inp)
+  | .text fld e => stepText first last fld e st (readText (st.sz.get fld) st.inp)
 
 /-- `next` of a reader whose fns are all flat (the inner reader of a header block) -/
 def nextF (first : Bool) : List FItem → St → Except RErr St
